@@ -22,12 +22,12 @@ type TV struct {
 }
 
 type TEnv struct {
-	vc   *VC
-	st   *State
-	old  *State
-	vars map[string]TV
-	pkg  *ssa.Package
-	errs []string
+	vc          *VC
+	st          *State
+	old         *State
+	vars        map[string]TV
+	pkg         *ssa.Package
+	errs        []string
 	macroParams map[string]bool // parameters of the macro whose body is being translated
 	neg         bool            // the formula being translated occurs in goal polarity (to be proved, not assumed)
 }
